@@ -30,7 +30,7 @@ CLAIMED['C14'] = dict(
          'covered only by the native differential run of the real code against a flat-string oracle (17 operations), not proved.',
     note=TRUST + ' memcpy is a stub that checks ranges and tracks one solver-chosen byte; element buffers are abstract addresses '
          '(their memory is not modelled); prefix-sum monotonicity is a separately proved lemma; total length <= 2^62.',
-    technique='deductive verification: Hoare loop rule instantiated on the real loops (cbmc + cvc5), ghost prefix sums and ghost indices; '
+    technique='deductive verification: Hoare loop rule instantiated on the real loops (cbmc with cvc5 for the 1024-element proofs, cadical for the 16 / 64-element ones), ghost prefix sums and ghost indices, generated loop-free proofs for the owning wrappers; '
               'native differential replay for counterexamples',
     design='§6 C14')
 CLAIMED['C16'] = dict(
